@@ -236,6 +236,10 @@ def owned_fields(v, ctor):
                 owned[x["lv"]] = allocs[x["val"]]
             elif isinstance(x["val"], tuple) and x["val"][0] == "sym":
                 p2f.setdefault(x["val"], x["lv"])
+            elif isinstance(x["val"], tuple) and x["val"][0] == "fld" and sym.root_of(x["val"]) is not None and \
+                    sym.root_of(x["val"]) != this and sym.root_of(x["val"])[0] == "sym":
+                # a member initialised from a field of a parameter object (k(params->k)): counts written with either name agree
+                p2f.setdefault(x["val"], x["lv"])
     for lv, info in owned.items():
         if info["count"] is not None:
             info["count_this"] = sym.subst(info["count"], p2f)
